@@ -45,3 +45,4 @@ for key in ("findings", "fixed"):
             kd.setdefault(key, []).append(e)
 json.dump(kd, open(f"{dst}/known_findings.json", "w"), indent=1)
 print(f"merged: +{len(new)} translator items, dispatch={len(disp)}, findings={len(kd['findings'])}, fixed={len(kd['fixed'])}")
+import subprocess; subprocess.run(["python3", "/verif/tools/prune_findings.py"])
